@@ -1053,3 +1053,22 @@ def rule_GC5(F, R):
         R.ok("GC5", "opening a repository consults the remote", where(nb))
     else:
         R.violation("GC5", "server::gitsync::GitSyncServer::new", "open-keeps-unpushed-commit", "opening a repository with a remote never compares the clone with the remote: a commit made by an add_version that stopped before its push stays, and its version is served from the local files", where(nb))
+
+
+def rule_P4(F, R):
+    R.begin("P4", "every backend implements every method of the Server interface: each of the four methods of each backend has a path that returns (a method whose every path ends in a panic is an interface hole: any caller holding a `dyn Server` can reach it)")
+    ms = impl_methods(F)
+    n = 0
+    for (be, name), b in sorted(ms.items()):
+        n += 1
+        c = cfg_of(b)
+        # feasible paths (constant tests such as async_trait's `if let Some(r) = None` are decided)
+        try:
+            rets = [p for p in SymExec(b, c, max_paths=3000).run() if p.end[0] == "return"]
+        except Exception:
+            rets = c.exits()
+        if rets:
+            R.ok("P4", "%s %s can return" % (be, name), where(b))
+        else:
+            R.violation("P4", b["owner_fn"], "method-never-returns", "the %s backend's %s has no returning path (every path ends in a panic): calling it through the public Server interface aborts the caller" % (be, name), where(b))
+    R.floor("P4", "Server methods across the backends", n, 16)
